@@ -20,6 +20,10 @@
                      that end fixed (the steering quantity is monotone in the searched variable).  C and that requirement are compared
                      as affine thresholds  N(rho, eps) + t >= 0  with numeric constants
   early-exit         the only other returns are the tabled degenerate cases under exact tests: rho == 0 (delta 0 / eps 0) and delta >= 1
+  probe-step          a conditional move of a bracket end before the search loop is one more bisection step at a point strictly inside the bracket,
+                     moving the end the loop moves for the sign of the steering quantity at that point; module-level state may only feed such probes.
+                     New optional parameters of cdp_delta are fixed at their defaults; an explicit value at a call site must be the expression
+                     cdp_delta computes itself for the same arguments (sound-side)
 Not decided: monotonicity, mutual inversion within tolerance, comparison with the exact Gaussian delta (numeric).
 """
 import ast
